@@ -121,6 +121,8 @@ func run(r *core.Run) {
 	rd := r.Rand.Fork()
 	schedules := 0
 
+	// 0. deterministic witness of the cache aliasing defect (repo-patches/05)
+	runV1Aliasing(r)
 	// 1. corpus, every schedule
 	for _, sc := range corpus() {
 		schedules += exhaustive(r, sc, "corpus-exhaustive", 0)
@@ -194,6 +196,8 @@ func run(r *core.Run) {
 		r.Diff(o.line, o.impl)
 		judge(r, o)
 	}
+	// 4b. two concurrent imports of the same new ring, every schedule
+	runImportRace(r)
 	// 5. one v1 handle shared by many goroutines
 	runV1Shared(r)
 	r.Extra["schedules_enumerated"] = schedules
